@@ -21,7 +21,8 @@ RULE = ("(a) histories of <= 45 operations over 1-3 proxies / up to 6 streams on
         "_StreamResultIterator (virtual clock, fake connections): call returning an iterator (custom iterator class, generator, "
         "list iterator; empty, long, raising at position k) or a plain value, next/close through the client iterator, unrelated "
         "proxy calls (sequence divergence, 16-bit wrap), proxy release/reconnect, raw daemon-object calls from foreign connections, "
-        "housekeeping, clock advances; settings streaming on/off x lifetime x linger (<=0 and >0); generated from VERIF_SEED; "
+        "housekeeping, clock advances; settings streaming on/off x lifetime x linger (<=0 and >0) x a daemon subclass whose "
+        "clientDisconnect hook raises (disconnects made the way the transport servers make them: errors only logged); generated from VERIF_SEED; "
         "a history is non-trivial when >= 2 items were delivered and >= 1 stream was forgotten for a reason other than exhaustion, "
         "or >= 2 streams were open at once; distinct = distinct (settings, op list).  (b) small sets of concurrent daemon-object / "
         "housekeeper / disconnect programs run with REAL threads on the real Daemon under the deterministic scheduler: every schedule "
@@ -134,6 +135,14 @@ def extract():
         elif h.type is not None:
             client_stop.append(ast.unparse(h.type))
     inside, outside = _lock_shape(fns["_housekeeping"], "housekeeper_lock")
+    # the user hook self.clientDisconnect(conn): called exactly once, as the last statement of _clientDisconnect
+    disc = fns["_clientDisconnect"]
+
+    def is_hook(n):
+        return isinstance(n, ast.Call) and isinstance(n.func, ast.Attribute) and n.func.attr == "clientDisconnect"
+    hook_calls = [n for n in ast.walk(disc) if is_hook(n)]
+    last = disc.body[-1]
+    hook_last = len(hook_calls) == 1 and isinstance(last, ast.Expr) and is_hook(last.value)
 
     def milli(x):
         return int(round(float(x) * 1000))
@@ -154,6 +163,8 @@ def seqMask : Nat := {masks[0]}
 def clientStopCatches : List String := {json.dumps(client_stop)}
 /-- accesses of `streaming_responses` in `_housekeeping` inside / outside `with self.housekeeper_lock:` -/
 def hkLockInside : Nat := {inside}
+/-- `self.clientDisconnect(conn)` (user hook, may raise) is called once, as the LAST statement of `_clientDisconnect` -/
+def disconnectHookLast : Bool := {"true" if hook_last else "false"}
 def hkLockOutside : Nat := {outside}
 /-- configuration defaults (seconds * 1000) -/
 def defaultStreaming : Bool := {"true" if cfg.ITER_STREAMING else "false"}
@@ -293,6 +304,7 @@ class World:
         self.reset(0)
 
     def reset(self, t0):
+        self.daemon.hook_fails = False
         self.daemon.streaming_responses = {}
         self.clock.now = t0
         self.conns = {}
@@ -339,8 +351,13 @@ class World:
         return self.dobj.close_stream(sid)
 
     def disconnect(self, conn):
+        """as both transport servers call it (svr_threads.py 59-63, svr_multiplex.py 87-90): errors are only logged"""
         self.server_events += 1
-        return self.daemon._clientDisconnect(conn)
+        try:
+            self.daemon._clientDisconnect(conn)
+            return "ok"
+        except Exception:
+            return "hookerr"
 
     def housekeeping(self):
         self.server_events += 1
@@ -415,8 +432,15 @@ def make_world():
     clock = VClock(old_time)
     server.time = clock
     config.SERVERTYPE = "multiplex"     # no worker threads: the transport is never used
+    class HookDaemon(server.Daemon):
+        """an application daemon whose user hook fails when told to (e.g. per-connection session cleanup hitting a KeyError)"""
+        hook_fails = False
+
+        def clientDisconnect(self, conn):
+            if self.hook_fails:
+                raise KeyError(conn)
     try:
-        daemon = server.Daemon(host="localhost", port=0)
+        daemon = HookDaemon(host="localhost", port=0)
     except BaseException:
         server.time = old_time
         raise
@@ -460,7 +484,8 @@ def gen_items(rng):
 def gen_history(rng):
     cfg = {"streaming": rng.random() < 0.93,
            "lifetime": rng.choice([0, 0, -2, 5, 20]),
-           "linger": rng.choice([0, -3, 4, 4, 30])}
+           "linger": rng.choice([0, -3, 4, 4, 30]),
+           "hook": rng.random() < 0.3}      # the daemon's clientDisconnect hook raises
     t0 = rng.choice([0, 1, 7, 1000])
     nprox = rng.randint(1, 3)
     seq0 = rng.choice([0, 0, 3, 65532, 65534, 65535])
@@ -521,7 +546,8 @@ def data_tok(d):
 
 def history_line(h, mask):
     c = h["cfg"]
-    toks = ["hist", "1" if c["streaming"] else "0", str(c["lifetime"]), str(c["linger"]), str(h["t0"]), str(h["nprox"]),
+    toks = ["hist", "1" if c["streaming"] else "0", str(c["lifetime"]), str(c["linger"]), "1" if c.get("hook") else "0",
+            str(h["t0"]), str(h["nprox"]),
             str(h["seq0"]), str(mask), str(len(h["ops"]))]
     for op in h["ops"]:
         if op[0] in ("call", "open"):
@@ -620,6 +646,7 @@ def run_history_real(world, h, ctx=None, judge=True):
     cfg = h["cfg"]
     config.ITER_STREAMING, config.ITER_STREAM_LIFETIME, config.ITER_STREAM_LINGER = cfg["streaming"], cfg["lifetime"], cfg["linger"]
     world.reset(h["t0"])
+    world.daemon.hook_fails = bool(cfg.get("hook"))
     proxies = [FakeProxy(world, h["seq0"]) for _ in range(h["nprox"])]
     iters = []          # the real _StreamResultIterator objects (kept alive: __del__ would close them)
     iter_stream = []    # client iterator -> stream index
@@ -713,8 +740,7 @@ def run_history_real(world, h, ctx=None, judge=True):
                     world.close(world.sid(op[1]))
                     res = "ok"
                 elif k == "disc":
-                    world.disconnect(world.conn(op[1]))
-                    res = "ok"
+                    res = world.disconnect(world.conn(op[1]))
                 elif k == "hk":
                     spec.housekeeping(world.clock.now)
                     world.housekeeping()
@@ -807,7 +833,8 @@ def _histories(ctx, n, judge_only=False):
             line = history_line(h, world.mask)
             lines.append(line)
             reals.append(out)
-            ctx.count("hist:lifetime%s/linger%s" % ("+" if h["cfg"]["lifetime"] > 0 else "0", "+" if h["cfg"]["linger"] > 0 else "0"))
+            ctx.count("hist:lifetime%s/linger%s%s" % ("+" if h["cfg"]["lifetime"] > 0 else "0", "+" if h["cfg"]["linger"] > 0 else "0",
+                                                       "/hook-raises" if h["cfg"].get("hook") else ""))
             for r in out.split(" | ")[0].split(";"):
                 ctx.count("reply:" + r.rstrip("0123456789"))
             for k, v in stats["cover"].items():
